@@ -295,6 +295,7 @@ PROPS = {
                       "the one place where a length parameter switches meaning cannot drop elements unfinalised.",
         "level_note": "destructor-only traits of non-copyable C++ unique arrays are accepted (noted in evidence)",
         "rules": [
+            {"run": rules_traits.run_ctorfail, "floor": 2},
             {"run": rules_traits.run_finimatch, "floor": 1},
             {"run": rules_traits.run_ctorcover, "floor": 2},
             {"run": rules_traits.run_traits, "floor": 20},
